@@ -29,6 +29,9 @@ def constructs(rnd=None):
         ("p'/a' r'\\b' \"c\"", "__xonsh__.path_literal('/a' r'\\b' \"c\")"),
         ("range?.index?", "__xonsh__.help(__xonsh__.help(range).index)"),
         ("a?.b??", "__xonsh__.superhelp(__xonsh__.help(a).b)"),
+        ("p'/a/' pf'{n}'", "__xonsh__.path_literal('/a/' f'{n}')"),
+        ("pf'/{i}' 'tail'", "__xonsh__.path_literal(f'/{i}' 'tail')"),
+        ("fp'{n}/x'", "__xonsh__.path_literal(f'{n}/x')"),
         ("range?", "__xonsh__.help(range)"),
         ("int??", "__xonsh__.superhelp(int)"),
         ("(u && v)", "(u and v)"),
